@@ -71,6 +71,17 @@ func (e *Enc) builtin(fr *Frame, b *ssa.Builtin, c *ssa.CallCommon, args []Val, 
 		e.mapDelete(st, args[0], mt, args[1])
 		return nil
 	case "clear":
+		if mt, isMap := c.Args[0].Type().Underlying().(*types.Map); isMap {
+			// clear(m): no keys left (clearing a nil map is a no-op, and a nil map already has none)
+			e.mapInit(st, args[0].L[0], mt)
+			return nil
+		}
+		if sl, isSlice := c.Args[0].Type().Underlying().(*types.Slice); isSlice {
+			// clear(s): the elements of s are zeroed; coarse model: the whole backing row is havoc'd
+			e.approximate("clear of a slice (its backing row is havoc'd)")
+			e.havocLeafRow(st, args[0].L[0], sl.Elem())
+			return nil
+		}
 		e.approximate("clear builtin")
 		e.havocAll(st, "clear")
 		return nil
